@@ -23,6 +23,7 @@ RULE = (
     "non-trivial = the chart has a hold and either a tempo change or a first tempo point away from 0 ms"
 )
 ASSUMPTIONS = [
+    "two tempo points at one time in an osu / Quaver source: the later line is in force (refs/sm.py applies the same rule to duplicate #BPMS beats of the written file)",
     "source files lie in the intersection of the formats' domains: tempo changes on 4/4 measure lines counted from the first tempo point, notes on the quarter-beat grid (integer milliseconds at 60/120/240 bpm), non-negative times",
     "tolerance = coarser of the two formats: 1 ms for osu/Quaver, plus 1/192 beat at the slowest tempo when StepMania or BMS is involved",
     "BMS has no global offset: for BMS targets whose source starts away from 0 ms, times are compared relative to the first tempo point (DESIGN 7.9)",
@@ -40,7 +41,9 @@ LEVEL_TEXT = (
 )
 LEVEL_NOTE = "Bounded: <=6 notes per chart, 3 tempo lists. Conversions whose target cannot hold the key count must refuse with ValueError."
 
-BPM_LISTS = {"one": [(F(0), 120)], "change": [(F(0), 120), (F(8), 60)], "two": [(F(0), 120), (F(4), 240), (F(12), 60)]}
+BPM_LISTS = {"one": [(F(0), 120)], "change": [(F(0), 120), (F(8), 60)], "two": [(F(0), 120), (F(4), 240), (F(12), 60)],
+             # two tempo points at one time (osu / Quaver sources only): the later line is the one in force
+             "tie": [(F(0), 120), (F(4), 240), (F(4), 60)]}
 LAYOUTS = {
     "hits": [(F(1), 0, None), (F(5, 2), -1, None), (F(9), 1, None)],
     "holds": [(F(1), 0, None), (F(4), 1, F(2)), (F(9), 2, None), (F(10), -1, F(1, 2))],
@@ -269,6 +272,8 @@ def variants(ch, game):
 def sources_for(ch):
     if ch.get("meter"):
         return ["osu"]
+    if len({b for b, _ in ch["bpms"]}) < len(ch["bpms"]):
+        return ["osu", "qua"] if ch["keys"] in (4, 7) else []
     out = []
     if ch["keys"] == 16:
         # the widest BME layout (double play): only osu (<= 18 keys) and BMS can hold it; the other targets must refuse
